@@ -22,10 +22,11 @@ int main(int argc, char** argv)
 		int n = c["n"];
 		std::vector<std::vector<long>> m = c["m"].get<std::vector<std::vector<long>>>(), adj = c["adj"].get<std::vector<std::vector<long>>>();
 		long det = c["det"];
-		for(int variant = 0; variant < 4; variant++)
+		for(int variant = 0; variant < 6; variant++)
 		{
 			// variant 0: plain; 1: mild gradings; 2: gradings up to a condition of ~1e8;
-			// 3: additionally non-dyadic row/column factors, so that entries are genuine reals (every operation rounds)
+			// 3: additionally non-dyadic row/column factors, so that entries are genuine reals (every operation rounds);
+			// 4 / 5: the whole matrix scaled by 2^-k / 2^+k (k = 16..24): well conditioned, determinant tiny / huge in absolute terms
 			if(variant == 3 && det == 0)
 				continue;	// rounding the entries of an exactly singular matrix makes it (barely) regular: not a case the statement decides
 			std::vector<int> r(n, 0), cc(n, 0);
@@ -37,11 +38,20 @@ int main(int argc, char** argv)
 					rf[i] = NF[g.range(0, 5)];
 					cf[i] = NF[g.range(0, 5)];
 				}
-			int span = variant == 0 ? 0 : (variant == 1 ? 3 : (variant == 2 ? 7 : 1));
+			int span = variant == 0 ? 0 : (variant == 1 ? 3 : (variant == 2 ? 7 : (variant == 3 ? 1 : 0)));
 			for(int i = 0; i < n; i++)
 			{
 				r[i]  = (int)g.range(-span, span);
 				cc[i] = (int)g.range(-span, span);
+			}
+			if(variant >= 4)
+			{
+				int k = (int)g.range(16, 24) * (variant == 4 ? -1 : 1);
+				for(int i = 0; i < n; i++)
+				{
+					r[i]  = k;
+					cc[i] = 0;
+				}
 			}
 			std::vector<std::vector<double>> a(n, std::vector<double>(n));
 			long double rowprod = 1, norm = 0, xnorm = 0;
@@ -153,6 +163,129 @@ int main(int argc, char** argv)
 			ev["msg"] = (ir.err + ir.out).substr(0, 120);
 			T.emit(ev);
 		}
+	}
+	// ---- directed real-valued family "pivotorder": well-conditioned matrices whose first column holds a tiny diagonal entry, an entry of
+	// order one and a small one further down (eps << delta << 1): elimination must bring the LARGEST entry to the pivot position
+	for(int rep = 0; rep < 60; rep++)
+	{
+		int n = (int)g.range(3, 7);
+		std::vector<std::vector<double>> a(n, std::vector<double>(n, 0.0));
+		for(int i = 0; i < n; i++)
+			a[i][i] = 1.0 + 0.25 * (double)g.range(0, 3);
+		int q = (int)g.range(1, n - 2), r2 = (int)g.range(q + 1, n - 1);
+		a[0][0]	 = std::ldexp(1.0, -(int)g.range(20, 40));
+		a[q][0]	 = 1.0;
+		a[r2][0] = std::ldexp(1.0, -(int)g.range(8, 16));
+		a[0][q]	 = 1.0;
+		a[q][r2] = 1.0;
+		a[r2][0 + 1 == q ? r2 : 1] += 0.5;
+		// reference inverse: Gauss-Jordan with complete pivoting in long double
+		std::vector<std::vector<long double>> W(n, std::vector<long double>(2 * n, 0.0L));
+		for(int i = 0; i < n; i++)
+		{
+			for(int j = 0; j < n; j++)
+				W[i][j] = a[i][j];
+			W[i][n + i] = 1.0L;
+		}
+		std::vector<int> colperm(n);
+		for(int i = 0; i < n; i++)
+			colperm[i] = i;
+		bool singular = false;
+		for(int k = 0; k < n && !singular; k++)
+		{
+			int pr = k, pc = k;
+			for(int i = k; i < n; i++)
+				for(int j = k; j < n; j++)
+					if(fabsl(W[i][j]) > fabsl(W[pr][pc]))
+					{
+						pr = i;
+						pc = j;
+					}
+			if(W[pr][pc] == 0)
+			{
+				singular = true;
+				break;
+			}
+			std::swap(W[k], W[pr]);
+			for(int i = 0; i < n; i++)
+				std::swap(W[i][k], W[i][pc]);
+			std::swap(colperm[k], colperm[pc]);
+			long double pv = W[k][k];
+			for(int j = 0; j < 2 * n; j++)
+				W[k][j] /= pv;
+			for(int i = 0; i < n; i++)
+				if(i != k)
+				{
+					long double f = W[i][k];
+					for(int j = 0; j < 2 * n; j++)
+						W[i][j] -= f * W[k][j];
+				}
+		}
+		if(singular)
+			continue;
+		std::vector<std::vector<long double>> XE(n, std::vector<long double>(n));
+		for(int i = 0; i < n; i++)
+			for(int j = 0; j < n; j++)
+				XE[colperm[i]][j] = W[i][n + j];
+		long double norm = 0, xnorm = 0;
+		for(int i = 0; i < n; i++)
+		{
+			long double rs = 0, xs = 0;
+			for(int j = 0; j < n; j++)
+			{
+				rs += fabsl(a[i][j]);
+				xs += fabsl(XE[i][j]);
+			}
+			norm  = std::max(norm, rs);
+			xnorm = std::max(xnorm, xs);
+		}
+		long double kappa = norm * xnorm;
+		if(kappa > 1e4L)
+			continue;
+		Matrix M(a);
+		json ev = {{"e", "Case"}, {"fam", "pivotorder"}, {"n", n}, {"salt", rep}, {"variant", 0}, {"sing", false}, {"detq", 0}, {"invertible", M.Invertible()}};
+		ChildResult ir = run_child([&]() {
+			Matrix X = M.Inverse();
+			std::string s;
+			char buf[40];
+			for(int i = 0; i < n; i++)
+				for(int j = 0; j < n; j++)
+				{
+					std::snprintf(buf, sizeof buf, "%.17g ", X[i][j]);
+					s += buf;
+				}
+			return s;
+		}, 20);
+		std::string o = outcome(ir);
+		ev["ret"]	  = ir.returned;
+		ev["status"]  = ir.signal ? 128 + ir.signal : ir.status;
+		ev["diag"]	  = o == "exit_diag";
+		ev["mem"]	  = (o == "signal" || o == "memerror" || o == "timeout");
+		ev["invq"]	  = 0;
+		ev["resLq"]	  = 0;
+		ev["resRq"]	  = 0;
+		if(ir.returned)
+		{
+			std::vector<std::vector<long double>> X(n, std::vector<long double>(n));
+			std::istringstream is(ir.result);
+			long double err = 0;
+			for(int i = 0; i < n; i++)
+			{
+				long double es = 0;
+				for(int j = 0; j < n; j++)
+				{
+					double v;
+					is >> v;
+					X[i][j] = v;
+					es += fabsl(X[i][j] - XE[i][j]);
+				}
+				err = std::max(err, es);
+			}
+			ev["invq"]	= quant((double)(err / xnorm), 64.0 * n * EPS * (double)kappa);
+			ev["kappa"] = (double)kappa;
+		}
+		ev["msg"] = (ir.err + ir.out).substr(0, 120);
+		T.emit(ev);
 	}
 	return 0;
 }
